@@ -442,3 +442,50 @@ def map_api(R, ctx, rid):
         ok = same and not cond
         why = "deletes the entry map.get(key) returned: %s; extra conditions: %s" % (same, cond[:2])
     R.ob(rid, fn, "remove-deletes-current", ok, why)
+
+
+
+def trims(R, ctx, rid):
+    """trim_start / trim_end of ranges and slices."""
+    Y = ctx.yrs
+    R.rule(rid, "R-PROV trimming a range or slice: BlockRange::trim_start(count) is clock += count *and* len -= count, trim_end is "
+                "len -= count; ItemSlice::trim_start is start += count, trim_end is end -= count; BlockSlice::trim_* hands its own "
+                "count to the variant's trim for items and for GC/Skip ranges — a diff that starts inside a GC range is written with "
+                "the remaining length, otherwise every later id of that client in the update is shifted")
+    want = {
+        "yrs::block::BlockRange::trim_start": {"BlockRange.clock": "Add", "BlockRange.len": "Sub"},
+        "yrs::block::BlockRange::trim_end": {"BlockRange.len": "Sub"},
+        "yrs::slice::ItemSlice::trim_start": {"ItemSlice.start": "Add"},
+        "yrs::slice::ItemSlice::trim_end": {"ItemSlice.end": "Sub"},
+    }
+    for path, fields in want.items():
+        fn = Y.fn(path)
+        v = FnView(fn)
+        got = {}
+        for i, j, st in fn.stmts():
+            d = st["dst"]
+            if isinstance(d, dict) and d["p"] and isinstance(d["p"][-1], str):
+                t = simp_deep(v.terms.rvalue(st["rv"], 8))
+                b = None
+                for x in walk(t):
+                    if x[0] == "bin" and x[1].replace("WithOverflow", "") in ("Add", "Sub"):
+                        b = x
+                        break
+                    if x[0] == "call" and re.search(r"::(wrapping|saturating)_(add|sub)$", x[1]) and len(x[2]) == 2:
+                        b = ("bin", "Add" if x[1].endswith("add") else "Sub", x[2][0], x[2][1])
+                        break
+                if b:
+                    fld = d["p"][-1].split("::")[-1]
+                    cnt = simp_deep(b[3])
+                    got[fld] = (b[1].replace("WithOverflow", ""), cnt[0] == "param" and fn.local_name(cnt[1]) == "count" and term_has_field(b[2], fld))
+        ok = all(got.get(f, (None, False)) == (op, True) for f, op in fields.items()) and set(got) == set(fields)
+        R.ob(rid, fn, "trim:" + path.rsplit("::", 2)[-2] + "::" + path.rsplit("::", 1)[-1], ok,
+             "writes %s" % {f: got.get(f) for f in fields} if ok else "expected %s by `count`, found %s" % (fields, got))
+    for name in ("trim_start", "trim_end"):
+        fn = Y.fn("yrs::slice::BlockSlice::" + name)
+        v = FnView(fn)
+        calls = [cs for cs in fn.calls() if re.search(r"::(ItemSlice|BlockRange)::%s$" % name, "::" + F.strip_generics(cs.name))]
+        kinds = {F.strip_generics(cs.name).rsplit("::", 2)[-2] for cs in calls}
+        own = all(len(cs.args) == 2 and simp_deep(v.arg(cs, 1))[0] == "param" and fn.local_name(simp_deep(v.arg(cs, 1))[1]) == "count" for cs in calls)
+        R.ob(rid, fn, "dispatch:" + name, kinds == {"ItemSlice", "BlockRange"} and own,
+             "BlockSlice::%s forwards count to %s" % (name, sorted(kinds)))
